@@ -70,6 +70,7 @@ class Contract:
         self.ghost = {}               # ghost parameters name -> kind (universally quantified)
         self.self_kind = None
         self.inline_if_none = None
+        self.inline_if_concrete = False
         self.group = ()
         self.hints = []               # [(label, FunctionDef)]: lemma uses evaluated at entry
         self.comp_invariants = {}     # comprehension ordinal -> [(label, FunctionDef)]
@@ -145,7 +146,7 @@ class World:
                                        ).body[0]
                         c.requires.append(('requires_receiver_class', fn))
                     elif nm in ('decreases', 'raises', 'memo', 'modifies', 'structural_eq', 'trusted',
-                                'inline', 'note', 'pure_result', 'inline_if_none', 'group'):
+                                'inline', 'note', 'pure_result', 'inline_if_none', 'group', 'inline_if_concrete'):
                         setattr(c, nm, val)
                     else:
                         raise OutOfReach('contract %s: unknown attribute %s' % (q, nm))
